@@ -144,6 +144,11 @@ def run(ctx):
     rnd = random.Random(ctx["seed"])
     known = vlib.load_known("C16")
     cases = gen_names(tier, rnd) + gen_utf8(tier, rnd) + gen_sigs(tier, rnd)
+    if ctx.get("replay"):
+        import json
+        rp = json.load(open(ctx["replay"]))["replay"]
+        h = rp.get("input", "-")
+        cases = [(rp.get("cmd", "sig"), bytes.fromhex("" if h == "-" else h))]
     # dedupe, keep order
     seen = set(); uniq = []
     for c in cases:
